@@ -171,6 +171,7 @@ type vpIdP struct {
 	signAlg        string                               // RS256 | none | HS256pub | otherkey
 	issueRefresh   bool
 	rotate         bool
+	noDiscovery    bool   // no /.well-known/openid-configuration
 	logoutStatus   int    // status of the backend-logout endpoint (0 => 200)
 	advertise      string // discovery: code_challenge_methods_supported  both | plain | s256 | absent
 	refreshMode    string // ok | fail | unsupported(no RT issued)
@@ -194,6 +195,11 @@ func vpNewIdP(name string) *vpIdP {
 		nonceMode: "echo", signAlg: "RS256", issueRefresh: true, rotate: true, refreshMode: "ok", idTokenTTL: 3600, idTokenOnRefresh: true}
 	if name == "extra" {
 		p.key = vpKeyExtra
+	}
+	if name == "extra0" {
+		// an issuer that publishes no discovery document (only <issuer>/.well-known/jwks.json), with a key of its own
+		p.key = vpKeyOther
+		p.noDiscovery = true
 	}
 	mux := http.NewServeMux()
 	mux.HandleFunc("/.well-known/openid-configuration", p.hDiscovery)
@@ -331,6 +337,10 @@ func (p *vpIdP) applyFault(ep string, rw http.ResponseWriter, r *http.Request) b
 
 func (p *vpIdP) hDiscovery(rw http.ResponseWriter, r *http.Request) {
 	if p.applyFault("discovery", rw, r) {
+		return
+	}
+	if p.noDiscovery {
+		http.NotFound(rw, r)
 		return
 	}
 	d := map[string]interface{}{
@@ -597,7 +607,7 @@ func (p *vpIdP) mintIDToken(user string, mut func(c map[string]interface{}), alg
 	if u.Email == "" {
 		delete(claims, "email")
 	}
-	if p.name == "extra" {
+	if p.name == "extra" || p.name == "extra0" {
 		claims["aud"] = vpExtraAudience
 	}
 	if u.Groups != nil {
